@@ -76,6 +76,8 @@ def check(tier, seed, replay=None):
         elif rc != 0:
             why = 'the process died (rc=%s): %s' % (rc, (err.strip().splitlines() or [''])[0][:200] + ' ... ' + ' | '.join(l for l in err.splitlines() if 'syzgydb.' in l)[:300])
             sig = 'conc:died'
+        elif lm and lm.group(1) == 'Unknown':
+            chk.notes.append('linearizability check timed out on one history (no verdict)')
         elif lm and lm.group(1) != 'Ok':
             why = 'the recorded history is not linearizable with respect to the document-store specification (porcupine: %s)' % lm.group(1)
             sig = 'conc:lin'
